@@ -37,6 +37,77 @@ structure PanicFacts (ops : HeapOps H) (s : St H) : Prop where
   compileEval_np : OpAt ops s .callAcc ∨ OpAt ops s .tcallAcc → ∀ id a st e st2,
     ops.callee s.heap s.acc = .builtin id → s.stack.pop = .ok (a, st) → asArgc a = .ok 1 →
     st.pop = .ok (e, st2) → Outcome.NoPanic (ops.compileEval s.heap (ops.deref s.heap e))
+  /-- the continuation CALL / TCALL is about to reinstate fits the current stack (`split_at_mut`) -/
+  contFits : ∀ c, ops.callee s.heap s.acc = .continuation c → c.stack.cells.length ≤ s.stack.cells.length
+
+/-- the one panic site of the MODEL's `step` that is not a panic site of `run_one`: the fuel guard of `apply`'s
+    list walk (the Rust loop has no bound; on a cyclic list it does not return) -/
+def ApplyGuard (m : String) : Prop := m = "apply: list longer than fuel (cyclic list)"
+
+theorem invokeCont_npA (s : St H) (c : Cont) (hfit : c.stack.cells.length ≤ s.stack.cells.length) :
+    Outcome.NoPanic (invokeCont s c) := by
+  unfold invokeCont
+  cases hp1 : s.stack.pop with
+  | ok r1 =>
+    obtain ⟨a, st⟩ := r1
+    simp only [outcome_bind_ok]
+    refine pin_bind (asArgc_np _) (fun n _ => ?_)
+    split
+    · exact pin_err _
+    · cases hp2 : st.pop with
+      | ok r2 =>
+        obtain ⟨result, st2⟩ := r2
+        simp only [outcome_bind_ok]
+        refine pin_bind ?_ (fun s2 _ => pin_ok _)
+        unfold restoreCont
+        refine pin_bind ?_ (fun st3 _ => pin_ok _)
+        intro m h
+        have e : st2.cells.length = s.stack.cells.length := by rw [(pop_ok hp2).2.1, (pop_ok hp1).2.1]
+        have h' : st2.restore c.stack = .panic m := h
+        unfold Stack.restore at h'
+        rw [e] at h'
+        simp only [hfit, if_true] at h'
+        cases h'
+      | err e => exact pin_err _
+      | panic m => exact absurd rfl (fun h => pop_np st m (hp2.trans h))
+  | err e => exact pin_err _
+  | panic m => exact absurd rfl (fun h => pop_np s.stack m (hp1.trans h))
+
+theorem pushList_pinA (s : St H) : ∀ (fuel : Nat) (rest : VCell) (n : Nat) (st : Stack),
+    Outcome.PanicsIn ApplyGuard (builtinApply.pushList ops s fuel rest n st)
+  | 0, rest, n, st => by
+    intro m h
+    unfold builtinApply.pushList at h
+    cases h; rfl
+  | fuel+1, rest, n, st => by
+    unfold builtinApply.pushList
+    split
+    · exact pushList_pinA s fuel _ _ _
+    · exact pin_ok _
+    · exact pin_err _
+
+theorem builtinApply_pinA (s : St H) (hip : 1 ≤ s.ipO) : Outcome.PanicsIn ApplyGuard (builtinApply ops s) := by
+  unfold builtinApply
+  refine pin_bind (pop_np _).to (fun a _ => ?_)
+  obtain ⟨a, st⟩ := a
+  refine pin_bind (asArgc_np _).to (fun argc _ => ?_)
+  split
+  · exact pin_err _
+  · refine pin_bind (pop_np _).to (fun r _ => ?_)
+    obtain ⟨top, st2⟩ := r
+    simp only
+    split
+    all_goals simp only [Bool.not_true, Bool.not_false, Bool.false_eq_true, ↓reduceIte]
+    all_goals first
+      | exact pin_err _
+      | (refine pin_bind (getOffset_np _ _).to (fun proc _ => ?_)
+         refine pin_bind (shift_np _ _).to (fun st3 _ => ?_)
+         refine pin_bind (pop_np _).to (fun r2 _ => ?_)
+         obtain ⟨_, st4⟩ := r2
+         refine pin_bind (pushList_pinA s _ _ _ _) (fun r3 _ => ?_)
+         obtain ⟨n, st5⟩ := r3
+         simp only [usub_of_le _ hip, outcome_bind_ok]
+         exact pin_ok _)
 
 /-- the same state after `read_opcode` -/
 abbrev nxt (s : St H) : St H := { s with ipO := s.ipO + 1 }
@@ -96,10 +167,11 @@ theorem builtinGeneric_npL {s : St H} {id : Nat} (hop : OpAt ops s .callAcc ∨ 
   | err e => exact pin_err _
   | panic m => exact absurd rfl (fun h => pop_np _ m (hp1.trans h))
 
-theorem runBuiltin_pinL {s : St H} {id : Nat} (hop : OpAt ops s .callAcc ∨ OpAt ops s .tcallAcc)
+theorem runBuiltin_pinL {R : String → Prop} {s : St H} {id : Nat}
+    (hAp : Outcome.PanicsIn R (builtinApply ops (nxt s))) (hop : OpAt ops s .callAcc ∨ OpAt ops s .tcallAcc)
     (pf : PanicFacts ops s) (hc : ops.callee s.heap s.acc = .builtin id)
-    (hcap : s.stack.sp < s.stack.cells.length) : Outcome.PanicsIn Residual (runBuiltin ops id (nxt s)) := by
-  have hjp : ∀ r : St H × VCell, Outcome.PanicsIn Residual
+    (hcap : s.stack.sp < s.stack.cells.length) : Outcome.PanicsIn R (runBuiltin ops id (nxt s)) := by
+  have hjp : ∀ r : St H × VCell, Outcome.PanicsIn R
       (match r with
       | (s, v) =>
         match v with
@@ -114,28 +186,30 @@ theorem runBuiltin_pinL {s : St H} {id : Nat} (hop : OpAt ops s .callAcc ∨ OpA
   unfold runBuiltin
   dsimp only
   split
-  · exact pin_bind (builtinApply_pin (nxt s) hip) (fun r _ => hjp r)
+  · exact pin_bind hAp (fun r _ => hjp r)
   · exact pin_bind (builtinCallcc_np (nxt s) hip hcap).to (fun r _ => hjp r)
   · exact pin_bind (builtinEvalProc_npL hop pf hc).to (fun r _ => hjp r)
   · exact pin_bind (builtinGeneric_npL hop pf hc).to (fun r _ => hjp r)
 
-theorem stepCall_pinL {s : St H} (hop : OpAt ops s .callAcc) (pf : PanicFacts ops s)
-    (hcap : s.stack.sp < s.stack.cells.length) : Outcome.PanicsIn Residual (stepCall ops (nxt s)) := by
+theorem stepCall_pinL {R : String → Prop} {s : St H}
+    (hAp : Outcome.PanicsIn R (builtinApply ops (nxt s))) (hop : OpAt ops s .callAcc) (pf : PanicFacts ops s)
+    (hcap : s.stack.sp < s.stack.cells.length) : Outcome.PanicsIn R (stepCall ops (nxt s)) := by
   unfold stepCall
   cases hc : ops.callee (nxt s).heap (nxt s).acc with
-  | builtin id => exact runBuiltin_pinL (.inl hop) pf hc hcap
-  | continuation c => exact invokeCont_pin _ _
+  | builtin id => exact runBuiltin_pinL hAp (.inl hop) pf hc hcap
+  | continuation c => exact (invokeCont_npA _ c (pf.contFits c hc)).to
   | other => exact pin_err _
   | closure lam env => exact pin_ok _
   | lambda => exact pin_bind (asPtr_np _).to (fun _ _ => pin_ok _)
 
-theorem stepTCall_pinL {s : St H} (hop : OpAt ops s .tcallAcc) (pf : PanicFacts ops s)
+theorem stepTCall_pinL {R : String → Prop} {s : St H}
+    (hAp : Outcome.PanicsIn R (builtinApply ops (nxt s))) (hop : OpAt ops s .tcallAcc) (pf : PanicFacts ops s)
     {n m : Nat} (hcap : s.stack.sp < s.stack.cells.length)
     (hA : s.stack.cellAt (s.bp + 1) = .argc n) (hn : n ≤ s.bp) (hm : s.stack.cellAt s.stack.sp = .argc m)
-    (hle : s.bp + 4 + m + 1 ≤ s.stack.sp) : Outcome.PanicsIn Residual (stepTCall ops (nxt s)) := by
+    (hle : s.bp + 4 + m + 1 ≤ s.stack.sp) : Outcome.PanicsIn R (stepTCall ops (nxt s)) := by
   cases hc : ops.callee (nxt s).heap (nxt s).acc with
-  | builtin id => unfold stepTCall; rw [hc]; exact runBuiltin_pinL (.inr hop) pf hc hcap
-  | continuation c => unfold stepTCall; rw [hc]; exact invokeCont_pin _ _
+  | builtin id => unfold stepTCall; rw [hc]; exact runBuiltin_pinL hAp (.inr hop) pf hc hcap
+  | continuation c => unfold stepTCall; rw [hc]; exact (invokeCont_npA _ c (pf.contFits c hc)).to
   | other => unfold stepTCall; rw [hc]; exact pin_err _
   | closure lam env =>
     rw [stepTCall_closure hc]
@@ -193,10 +267,12 @@ theorem stepEnter_npL {s : St H} (hop : OpAt ops s .enter) (pf : PanicFacts ops 
     exact pin_err _
 
 /-- **T06.6 from state-local facts.** `ops'` is the interface the frame-chain invariant is stated over; it reads
-    code like `ops` does. -/
-theorem step_pin_local {ops' : HeapOps H} {cl : CodeLaws ops'} {s : St H} {K : List FDesc} (hw : WFS cl s K)
-    (hrd : readOpcode ops s = readOpcode ops' s) (pf : PanicFacts ops s) :
-    Outcome.PanicsIn Residual (step ops s) := by
+    code like `ops` does. Every panic of `step` is a panic of `apply`'s argument spreading (`builtinApply` on the
+    state after `read_opcode`): `R` is whatever is known of those. -/
+theorem step_pin_localR {R : String → Prop} {ops' : HeapOps H} {cl : CodeLaws ops'} {s : St H} {K : List FDesc}
+    (hw : WFS cl s K) (hrd : readOpcode ops s = readOpcode ops' s) (pf : PanicFacts ops s)
+    (hAp : Outcome.PanicsIn R (builtinApply ops (nxt s))) :
+    Outcome.PanicsIn R (step ops s) := by
   have hl : ops.isLambda s.heap s.ipL = true := pf.isLambda
   unfold step
   refine pin_bind (readOpcode_np hl).to (fun a hr => ?_)
@@ -257,7 +333,7 @@ theorem step_pin_local {ops' : HeapOps H} {cl : CodeLaws ops'} {s : St H} {K : L
     | err e => exact pin_err _
     | panic m => exact absurd rfl (fun h => asPtr_np _ m (ha.trans h))
   case callAcc =>
-    exact pin_bind (stepCall_pinL hopAt pf hcap) (fun _ _ => pin_ok _)
+    exact pin_bind (stepCall_pinL hAp hopAt pf hcap) (fun _ _ => pin_ok _)
   case tcallAcc =>
     have chk := ai.chk
     cases st <;> simp only [checkOp, Bool.and_eq_true] at chk <;> try (exact absurd chk Bool.false_ne_true)
@@ -265,7 +341,7 @@ theorem step_pin_local {ops' : HeapOps H} {cl : CodeLaws ops'} {s : St H} {K : L
     obtain ⟨n, ep', l', o', bp', K', hm, hA, _, _, _, hn, _, _⟩ :=
       hw.wf.frames.inv_frame ai.ht hent ai.hst (by simp)
     obtain ⟨m, hm1, hm2, _⟩ := hm
-    exact pin_bind (stepTCall_pinL hopAt pf hcap hA hn hm1 (show s.bp + 4 + m + 1 ≤ s.stack.sp by omega))
+    exact pin_bind (stepTCall_pinL hAp hopAt pf hcap hA hn hm1 (show s.bp + 4 + m + 1 ≤ s.stack.sp by omega))
       (fun _ _ => pin_ok _)
   case enter =>
     have chk := ai.chk
@@ -284,5 +360,11 @@ theorem step_pin_local {ops' : HeapOps H} {cl : CodeLaws ops'} {s : St H} {K : L
   case varArg =>
     obtain ⟨info, hinfo, hargc⟩ := pf.vararg hopAt
     exact pin_bind (stepVarArg_np (nxt s) hinfo hargc).to (fun _ _ => pin_ok _)
+
+/-- … the only panic of the model's `step` is the fuel guard of `apply` -/
+theorem step_pin_local {ops' : HeapOps H} {cl : CodeLaws ops'} {s : St H} {K : List FDesc} (hw : WFS cl s K)
+    (hrd : readOpcode ops s = readOpcode ops' s) (pf : PanicFacts ops s) :
+    Outcome.PanicsIn ApplyGuard (step ops s) :=
+  step_pin_localR hw hrd pf (builtinApply_pinA (nxt s) (Nat.le_add_left 1 s.ipO))
 
 end Marwood.Vm
